@@ -150,7 +150,10 @@ func c03Entries() []c03Entry {
 			_, err := w.bi.EvaluateBatch(q)
 			return err == nil
 		}},
-		{"batched.UnmarshalBatchedTokenResponses", []string{"batchresp"}, func(w *c03World, b []byte) bool { _, err := batched.UnmarshalBatchedTokenResponses(b); return err == nil }},
+		{"batched.UnmarshalBatchedTokenResponses", []string{"batchresp"}, func(w *c03World, b []byte) bool {
+			_, err := batched.UnmarshalBatchedTokenResponses(b)
+			return err == nil
+		}},
 		{"util.UnmarshalTokenKey", []string{"spki", "spki-legacy"}, func(w *c03World, b []byte) bool { _, err := util.UnmarshalTokenKey(b); return err == nil }},
 		{"type1.FinalizeToken", []string{"resp1"}, func(w *c03World, b []byte) bool { _, err := w.st1.FinalizeToken(b); return err == nil }},
 		{"type2.FinalizeToken", []string{"resp2"}, func(w *c03World, b []byte) bool { _, err := w.st2.FinalizeToken(b); return err == nil }},
@@ -490,6 +493,70 @@ func runC03(c *Ctx) {
 						return "-"
 					})
 					c.Direct(out == "-", "panic on a type-3 request whose signature has boundary scalars", map[string]any{"signature": hx(sig), "panic": firstLines(lastPanic, 10)})
+				}
+			}
+		}
+	}
+	// an attester that has refused an index computation keeps answering (no call waits for ever on what a refused one left behind)
+	{
+		cw := newC09World(r, 2, 2, 4)
+		out := c.Op("c03.probe type3.Attester(after-a-refused-FinalizeIndex)", func() string {
+			done := make(chan string, 1)
+			go func() {
+				att := type3.NewRateLimitedAttester(newMemCache())
+				x, y := cw.clients[0], cw.clients[1]
+				att.VerifyRequest(x.request, x.blind, x.pubEnc, cw.anons[1])
+				att.FinalizeIndex(x.pubEnc, x.blind, cw.blinded[[2]int{0, 0}], cw.anons[1])
+				_, err := att.FinalizeIndex(x.pubEnc, x.blind, cw.blinded[[2]int{0, 0}], cw.anons[3])
+				if err == nil {
+					done <- "a colliding index computation was not refused"
+					return
+				}
+				att.FinalizeIndex(x.pubEnc, []byte{1}, []byte{2}, cw.anons[1]) // malformed: another error path
+				att.VerifyRequest(y.request, x.blind, y.pubEnc, cw.anons[1])   // refused: wrong blind
+				if att.VerifyRequest(y.request, y.blind, y.pubEnc, cw.anons[1]) != nil {
+					done <- "an honest request of another client is refused afterwards"
+					return
+				}
+				if _, err := att.FinalizeIndex(y.pubEnc, y.blind, cw.blinded[[2]int{1, 1}], cw.anons[1]); err != nil {
+					done <- "an honest index computation of another client is refused afterwards"
+					return
+				}
+				done <- "-"
+			}()
+			select {
+			case v := <-done:
+				return v
+			case <-time.After(15 * time.Second):
+				return "the attester stopped answering after a refused call (no answer within 15 s)"
+			}
+		})
+		c.Direct(out == "-", "attester after refused calls: "+out, map[string]any{"panic": firstLines(lastPanic, 6)})
+	}
+	// client finalization under every HPKE suite a name key may announce, for every short response
+	{
+		nk := w.env.issuer.NameKey().Marshal()
+		for _, kdf := range []byte{1, 2, 3} {
+			for _, aead := range []byte{1, 2, 3} {
+				pub := append(append([]byte{}, nk[:35]...), 0, kdf, 0, aead)
+				ek, err := type3.UnmarshalEncapKey(pub)
+				if err != nil {
+					continue
+				}
+				st, err := type3.NewRateLimitedClientFromSecret(w.cl3.secret).CreateTokenRequest([]byte("c"), bytes.Repeat([]byte{3}, 32), w.cl3.blind,
+					w.env.issuer.TokenKeyID(), w.env.issuer.TokenKey(), "origin.example", ek)
+				if err != nil {
+					continue
+				}
+				for n := 0; n <= 80; n++ {
+					resp := r.Bytes(n)
+					resp = resp[:n:n]
+					out := c.Op(fmt.Sprintf("c03.probe type3.FinalizeToken(kdf=%d,aead=%d) %s", kdf, aead, hx(resp)), func() string {
+						st.FinalizeToken(resp)
+						return "-"
+					})
+					c.Count("finalize3:suites")
+					c.Direct(out == "-", "panic in type-3 FinalizeToken on a short response", map[string]any{"kdf": kdf, "aead": aead, "response": hx(resp), "panic": firstLines(lastPanic, 8)})
 				}
 			}
 		}
